@@ -70,6 +70,102 @@ add("C18",
     "Trusted: Coq kernel, Model/Diff.v, harness, driver's numbering of paths/digests. CLI rendering is C20's.",
     "machine-checked proof in Coq (characterisation lemmas, permutation invariance) + differential correspondence")
 
+
+add("C10",
+    "Coq theorems over the JSON string codec model: serde_json's escaping followed by a conforming RFC 8259 decoder is the identity on all byte "
+    "strings / all valid UTF-8 (no bound on length), the escaped token is a valid JSON string without raw control bytes and is injective; a "
+    "borrowed-&str reader succeeds iff the token has no escape; rocfl's reader and the validator's reader, position by position (id, paths, "
+    "content directory, user, address, message, version keys), read back exactly what was written outside the recorded known classes, and inside "
+    "them fail (witness lemmas). Correspondence: generated hostile strings placed in every string position through the real create_object / copy / "
+    "commit, inventories re-read with an independent JSON parser, tokens compared in Coq with the model. Search: accepted operation followed by a "
+    "failing open/list/commit/reset, or a string read back that differs.",
+    "Trusted: Coq kernel, Model/Json.v, harness, Python json. clap's argument decoding is outside. Known findings: borrowed-string readers "
+    "(json-escape-borrowed, validator-json-escape), id trimmed, empty content directory, content directory colliding with inventory.json.",
+    "machine-checked proof in Coq (round-trip laws by induction on byte strings) + correspondence on generated strings")
+
+add("C11",
+    "Coq theorems: for each of the five layout extensions the code model of map_object_id (byte-index slicing, to_tuples, lower_percent_escape, "
+    "padding, reversal, rfind on the lower-cased id) equals an independent Gallina transcription of the extension document for every validated "
+    "configuration, every id and every digest outside the recorded known classes; unmappable ids are refused, never mapped elsewhere; "
+    "StorageLayout::new accepts exactly the configurations the documents allow (outside the known classes) and never panics there; helper laws "
+    "(percent-escape lowering, tuple splitting, 100-character truncation, prefix stripping). Witness lemmas for every known class. "
+    "Correspondence: StorageLayout::new / map_object_id of the real library on a configuration grid x id pool compared inside Coq with both models; "
+    "system level: the directory an object occupies after commit, refusal of forbidden configurations with nothing written.",
+    "Trusted: Coq kernel, Model/Layout.v, Model/LayoutSpec.v (my reading of the five documents in /repo/resources/main/specs), hashlib digests, "
+    "Rust's Unicode case mapping (an input to both models). Known findings: case-fold index shift, 0003 zero tuples, 0007 control characters, "
+    "tuple bounds, shortObjectRoot, 0007 defaults, array configs.",
+    "machine-checked proof in Coq (code model = document model, for all ids/configs) + function-level differential correspondence")
+
+add("C13",
+    "PARTIAL. Coq theorems over an interleaving model of acquire ; body ; release (Model/Lock.v), for every schedule of any number of operations: "
+    "mutual exclusion per object, lock file present exactly while an operation is inside its body, released on every outcome (Ok, Err, panic), no "
+    "mutation of an object's data outside its lock, refused acquire changes nothing and is refused exactly when the lock is held, steps on "
+    "different objects commute, every complete interleaving equals the serial execution of the granted operations in acquire order. "
+    "Correspondence: real CLI processes under strace - every mutating command (also failing and fault-injected) is accepted by the bracket "
+    "automaton proved for all model traces; a second process run while the first is held (delay injection) at sampled system calls is refused / "
+    "admitted as the model predicts and the final tree equals the serial reference; N-way races. Search: trace shape, snapshot equality, result in "
+    "the set of serial results.",
+    "Atomicity of O_CREAT|O_EXCL and genuinely parallel interleavings are assumptions of the model (runtime facts); the correspondence exercises "
+    "'B atomic inside A' schedules and whole-command races only. Lock key = sha256(id) assumed injective.",
+    "machine-checked proof in Coq (invariants by induction over schedules, commutation => serializability) + strace trace correspondence")
+
+add("C15",
+    "PARTIAL. Coq theorems over Model/S3.v: listing by pages of any size >= 1 equals the unpaged listing (induction over the page sequence), "
+    "laws of paths::join (unit tests as lemmas, unit, single slash at the seam, associativity), keys <-> file tree bijection, exact prefix "
+    "stripping outside the trailing-slash class (witness inside), list_objects returns exactly the object roots of the bucket. Search: the same "
+    "generated histories driven through the real library on a filesystem repository and on a local TLS S3 stand-in (bucket root / nested prefix, "
+    "page sizes 1,2,3,1000, both sides of the multipart threshold): step results, key set = file set, bytes, every read-API answer compared. "
+    "Correspondence: the Gallina scan / paging model evaluated on the observed bucket dumps and request sequences.",
+    "HTTP, rusoto, tokio, request signing and real S3 semantics are outside the model; the stand-in (vplib/s3stub.py) is trusted. Known finding: "
+    "prefix with a trailing slash.",
+    "machine-checked proof in Coq (paging independence, join laws, bijection) + fs-vs-S3 differential on histories")
+
+add("C16",
+    "Coq theorems over the S3 request programs (Model/S3.v): in every fault-free commit the PUT of the root inventory follows every PUT below vN/ "
+    "and precedes the sidecar; for EVERY fault position outside the recorded known classes the commit reports an error, leaves every earlier key "
+    "and the previous root inventory pair unchanged, leaves no key of vN and keeps the staged version, and the retry succeeds; refused commits send "
+    "nothing; witness lemmas inside the classes (root inventory deleted by rollback, walk order of new objects, declaration swap). Search: real "
+    "library on the stand-in, every mutating request of every commit failed once with HTTP 500 and once by dropping the connection, then keys, "
+    "read-back, staged state and retry checked; order oracle on the request log. Correspondence: model request sequence and final bucket vs log.",
+    "As C15. Known findings: root-inventory-rollback, new-object-walk-order.",
+    "machine-checked proof in Coq (all fault positions of the request programs) + request-level fault enumeration on the S3 stand-in")
+
+add("C17",
+    "PARTIAL. Coq theorems over literal models of the validator fragments the property names (Model/VCode.v): exact cost of "
+    "validate_version_nums (sum of gaps; linear bound refuted with witness v400000000), guards before Inventory::new(..).unwrap(), "
+    "get_version / content_paths unwraps, PrettyPrintSet, ContentPathsIter termination, repository iterator continues after an error, prefix "
+    "hashing cost, Display width - each proved outside the recorded known classes with a witness inside. Correspondence: error counts / panic "
+    "sites of the real validator vs the model on three exactly-abstractable families. Search: object roots mutated at byte, JSON and directory "
+    "level validated by the real code in child processes under wall-clock and address-space limits; oracle = panic, abort, timeout, memory "
+    "blow-up, repository validation not reaching the remaining objects.",
+    "Panic freedom, running time and memory of the real process are runtime facts: the theorems cover arithmetic and guard logic only; the rest is "
+    "shown on executed inputs. Known findings: blank id, version gap, empty manifest entry, empty PrettyPrintSet (debug), wide padding, quadratic "
+    "path check, uriparse colon segment.",
+    "machine-checked proof in Coq (cost and guard lemmas) + resource-limited search over mutated objects")
+
+add("C19",
+    "Coq theorems over Model/Listing.v (depth-first walk, object-root test, `extensions` skipping, regex id pre-filter, glob filter, lookup via "
+    "layout path / scan / cache): for every repository tree outside the recorded known classes list_objects returns each committed id exactly "
+    "once, a glob listing = the filtered list, no staged or extension object is listed, get_object finds an id iff it is committed, purged ids are "
+    "not found, staged listing exact; the regex text is pinned to the generated constant; witness lemmas inside each class. Correspondence: "
+    "repositories built by the real library from hostile id sets under every layout and none; after every commit/purge the on-disk tree is "
+    "abstracted to a model tree and list_objects(None|glob), list_staged_objects, get_object compared inside Coq. Search: listed ids = the "
+    "driver's own record as a multiset.",
+    "Trusted: Coq kernel, Model/Listing.v, tree abstraction in checks/c19.py, globset behaviour on the generated subset. Known findings: id needing "
+    "a JSON escape, root named extensions, layout path occupied, stale id-path cache, '?' matching one byte.",
+    "machine-checked proof in Coq (walk/lookup invariants over arbitrary trees) + correspondence on built repositories")
+
+add("C20",
+    "PARTIAL. Coq theorems over Model/Cli.v: exit status 0 iff every library call succeeded (partial cp/mv and per-item ls errors non-zero), "
+    "validate exits 2 iff something is invalid after suppression (refuted for the pinned code on storage-root errors: known class, proved for "
+    "the class-exact and the repaired logic), exit 1 iff only operational errors, suppression monotone, the option -> library-call mapping is "
+    "total on the generated grammar with defaults and forwarding pinned. Correspondence: every generated history replayed through the release "
+    "binary and through the library harness in two scratch repositories: Coq evaluates argv_to_call and cli_exit per invocation. Search: trees "
+    "equal, cat stdout byte-identical, one listing entry per library result, exit status truthful, validate verdicts under generated options.",
+    "clap parsing, terminal styling and stdout plumbing are exercised, not modelled; only the decision logic is proved. Known finding: "
+    "validate-root-suppression.",
+    "machine-checked proof in Coq (decision-logic lemmas) + CLI-vs-library differential on histories")
+
 NOT_APPLICABLE = []  # filled below for every property without a check yet
 
 ALL = ["C%02d" % i for i in range(1, 21)]
